@@ -288,6 +288,8 @@ type Typedef struct {
 	// resolving is set while the typedef is being resolved, to detect
 	// typedefs that are defined in terms of themselves.
 	resolving bool
+	// run is the Process run that resolved YangType.
+	run int
 }
 
 func (Typedef) Kind() string             { return "typedef" }
@@ -320,6 +322,8 @@ type Type struct {
 
 	// resolveErrs are the errors found when YangType was resolved.
 	resolveErrs []error
+	// run is the Process run that resolved YangType.
+	run int
 }
 
 func (Type) Kind() string             { return "type" }
